@@ -195,7 +195,7 @@ class ProjectResolver:
                 out.append((ln, n, o, t, trail))
         return out
 
-    def import_bound(self, rel, owner_ps, name, use_line=None):
+    def import_bound(self, rel, owner_ps, name, use_line=None, use_scope=None):
         """what (owner scope, name) denotes if its bindings are imports -> (target, qualifiers) or None."""
         orc = self.oracles[rel]
         forms = orc.binding_forms(owner_ps, name)
@@ -206,7 +206,9 @@ class ProjectResolver:
                 return ("ambiguous", sorted(tgts)), []
             tgt = mine[0][3]
             quals = list(mine[0][4])
-            if owner_ps.kind == "func" and use_line is not None and use_line < min(x[0] for x in mine):
+            if owner_ps.kind == "func" and use_line is not None and (
+                    use_line < min(x[0] for x in mine) or (use_scope is not None and use_scope is not owner_ps)):
+                # textually earlier, or in a nested function (analysed before the importing function)
                 quals.append("used-before-import")
             others = [x for x in self.import_stmts(rel) if not (x[1] == name and x[2] is owner_ps)]
             star = [(0, n, orc.module, self.lookup(rel, n)[0], []) for n in self.star_names(rel)]
@@ -229,7 +231,7 @@ class ProjectResolver:
     def expectation(self, rel):
         """-> callable for c05_py.compare_unit(imports=...)"""
         def imports(r):
-            res = self.import_bound(rel, r["owner"], r["name"], r["line"])
+            res = self.import_bound(rel, r["owner"], r["name"], r["line"], r["scope"])
             if res is None:
                 return None
             tgt, quals = res
